@@ -92,6 +92,48 @@ pub fn dot_attr(text: &str, ls: &Lists, members: &BTreeMap<usize, i64>, table: u
     if lines.first() != Some(&"digraph {") || lines.last() != Some(&"}") {
         return Err(format!("to_dot_with_attr: missing frame: {:?}", text));
     }
+    if table == 3 {
+        // stateful callbacks: every statement carries the number of the invocation made for it - the numbers on the node
+        // statements are 1..n, those on the edge statements 1..m, each exactly once (which statement gets which number
+        // follows the container's iteration order)
+        let mut ni: Vec<usize> = vec![];
+        let mut ej: Vec<usize> = vec![];
+        let mut stripped: Vec<String> = vec![];
+        for l in &lines[1..lines.len() - 1] {
+            let (head, num) = match l.rsplit_once(" [") {
+                Some((h, a)) => (h.to_string(), a.trim_end_matches(']').to_string()),
+                None => return Err(format!("to_dot_with_attr (stateful callbacks): statement `{l}` carries no attribute")),
+            };
+            let (name, val) = num.split_once('=').unwrap_or(("", ""));
+            let v: usize = val.trim_matches('"').parse().map_err(|_| format!("statement `{l}`: attribute value is not a number"))?;
+            if name == "i" && !head.contains("->") {
+                ni.push(v)
+            } else if name == "j" && head.contains("->") {
+                ej.push(v)
+            } else {
+                return Err(format!("statement `{l}` carries the attribute of the other callback"));
+            }
+            stripped.push(head);
+        }
+        ni.sort();
+        ej.sort();
+        if ni != (1..=ni.len()).collect::<Vec<_>>() || ej != (1..=ej.len()).collect::<Vec<_>>() {
+            return Err(format!("to_dot_with_attr with stateful callbacks: node statements carry {:?}, edge statements {:?}; each callback is to be invoked once per statement and its answer used for that statement", ni, ej));
+        }
+        let mut expect = vec![];
+        for k in members.keys() {
+            expect.push(format!("\t{k}"));
+            if let Some(n) = ls.iter().find(|n| n.key == *k) {
+                for (v, _) in &n.out {
+                    expect.push(format!("\t{k} -> {v}"));
+                }
+            }
+        }
+        if multiset(stripped.clone()) != multiset(expect.clone()) {
+            return Err(format!("to_dot_with_attr (stateful callbacks) statements {:?} differ from the expected {:?}", stripped, expect));
+        }
+        return Ok(());
+    }
     let got = multiset(lines[1..lines.len() - 1].iter().map(|s| s.to_string()).collect());
     let mut expect = vec![];
     if let Some(ga) = ga {
